@@ -47,11 +47,15 @@ type topicModel struct {
 	gwRegN    map[uint32]int    // outstanding gateway REGISTERs per (msgID, TopicID)
 	gwRegTid  map[uint16]int    // outstanding gateway REGISTERs per TopicID
 	gwRegName map[uint16]string // TopicID -> name of the gateway's latest REGISTER for it
+	gwRegSent map[uint32]int    // REGISTERs ever sent per (msgID, TopicID)
+	gwRegAcks map[uint32]int    // REGACKs seen per (msgID, TopicID)
+	ambiguous map[uint16]bool   // TopicIDs whose REGACKs cannot be attributed (see feed)
+	gwRegRC   map[uint32]int    // bit 1: an accepting, bit 2: a refusing REGACK was seen for (msgID, TopicID)
 }
 
 func newTopicModel(pre Predef) *topicModel {
 	return &topicModel{pre: pre, definite: map[uint16]string{}, pendReg: map[uint16]string{}, pendSub: map[uint16]*snref.Pkt{},
-		gwReg: map[uint32]*snref.Pkt{}, gwRegN: map[uint32]int{}, gwRegTid: map[uint16]int{}, gwRegName: map[uint16]string{}, handed: map[uint16]string{}, maybe: map[uint16]bool{}, rejected: map[uint16]string{}, refused: map[string]int{}}
+		gwReg: map[uint32]*snref.Pkt{}, gwRegN: map[uint32]int{}, gwRegTid: map[uint16]int{}, gwRegName: map[uint16]string{}, gwRegSent: map[uint32]int{}, gwRegRC: map[uint32]int{}, gwRegAcks: map[uint32]int{}, ambiguous: map[uint16]bool{}, handed: map[uint16]string{}, maybe: map[uint16]bool{}, rejected: map[uint16]string{}, refused: map[string]int{}}
 }
 
 // TopicModel is the exported view of the reference registration model, for adaptive workload generators.
@@ -168,6 +172,32 @@ func (m *topicModel) feed(it Item) {
 						m.rejected[r.TopicID] = r.Name
 					}
 				}
+			}
+			// Ambiguity: the gateway re-uses its message ID (65535 downwards) and the pending TopicID for the
+			// REGISTERs of successive QoS 0 messages on one name, so REGISTER #2 is bit-identical to #1. If the
+			// client has answered that (msgID, TopicID) both with a refusal and with an acceptance - e.g. it
+			// refused #1, a late duplicate of that refusal met the outstanding #2, and its acceptance of #2
+			// came after - nobody can attribute the REGACKs: the gateway rightly reads "refused", the client
+			// rightly believes "registered". The ID is then neither definite nor rejected for the oracle.
+			if p.TopicID != 0 {
+				bit := 1
+				if p.RC != 0 {
+					bit = 2
+				}
+				m.gwRegRC[key] |= bit
+				m.gwRegAcks[key]++
+				// (more answers than requests = some answer is a duplicate; without duplicates every REGACK
+				// belongs to the REGISTER outstanding when it arrived)
+				if m.gwRegRC[key] == 3 && m.gwRegSent[key] >= 2 && m.gwRegAcks[key] > m.gwRegSent[key] {
+					delete(m.definite, p.TopicID)
+					delete(m.rejected, p.TopicID)
+					m.maybe[p.TopicID] = true
+					m.ambiguous[p.TopicID] = true
+					break
+				}
+			}
+			if ok {
+				// handled above
 			} else if p.RC == 0 {
 				// an accepting REGACK that matches no outstanding REGISTER of the model (a duplicate, or the
 				// model consumed the entry for a REGACK that the gateway attributed to a twin REGISTER): the
@@ -204,6 +234,7 @@ func (m *topicModel) feed(it Item) {
 			m.gwReg[k] = p
 			m.gwRegN[k]++
 			m.gwRegTid[p.TopicID]++
+			m.gwRegSent[k]++
 			m.gwRegName[p.TopicID] = p.Name
 			m.maybe[p.TopicID] = true
 		}
@@ -456,6 +487,7 @@ func C02(items []Item, pre Predef) (vs []V, checked int) {
 	delivered := map[string][]Item{} // payload -> SN< PUBLISH events (first transmissions and dups)
 	resolvedAt := map[int]string{}   // seq of SN< PUBLISH -> what its id resolved to at that moment ("" = unresolvable)
 	resolvable := map[int]bool{}
+	undecided := map[int]bool{} // the model cannot tell what the ID means to the client (ambiguous REGACK attribution only; an ID whose REGISTER is merely unanswered is NOT excused)
 	ended := false
 	for _, it := range items {
 		m.feed(it)
@@ -472,6 +504,7 @@ func C02(items []Item, pre Predef) (vs []V, checked int) {
 			n, st := m.resolve(it.SN.TIT, it.SN.TopicID)
 			resolvedAt[it.Seq] = n
 			resolvable[it.Seq] = st == "name"
+			undecided[it.Seq] = st == "dontcare" && m.ambiguous[it.SN.TopicID] && it.SN.TIT == 0
 		}
 	}
 	for _, in := range injs {
@@ -501,7 +534,9 @@ func C02(items []Item, pre Predef) (vs []V, checked int) {
 			vs = append(vs, V{"C02", "delivered-twice|" + cls, fmt.Sprintf("broker %s reached the client %d times (not counting DUP retransmissions)", p, len(firsts)), firsts[1].Seq})
 		}
 		d := firsts[0]
-		if !resolvable[d.Seq] || resolvedAt[d.Seq] != p.Topic {
+		if undecided[d.Seq] {
+			// no verdict on the ID; the other fields are still compared
+		} else if !resolvable[d.Seq] || resolvedAt[d.Seq] != p.Topic {
 			vs = append(vs, V{"C02", "unresolvable-topic-id|" + cls, fmt.Sprintf("broker %s was delivered as %s, which the client resolves to %q (resolvable=%v)", p, d.SN, resolvedAt[d.Seq], resolvable[d.Seq]), d.Seq})
 		}
 		if d.SN.QoS != p.QoS || d.SN.Retain != p.Retain {
